@@ -240,13 +240,14 @@ def _selftest_check(ctx, muts, flagged):
 
 def run(ctx):
     # 1. design-level MC: every skeleton routes to a handler whose protected storage calls are covered
-    r = ctx.mc("Routing", "Routing.MC.cfg", workers=4, timeout=600)
+    ctx.mc("Routing", "Routing.MC.cfg", workers=4, timeout=600)
     devs = ctx.deviations("D-C31")
     if TAG in devs and not ctx.quick():
         # the open deviation must be a real design-level violation (guards against a toothless table)
-        d = ctx.tlc("Routing", "Routing.MC.cfg", workers=4, timeout=600, subst={"Deviations": devs})
+        d = ctx.tlc("Routing", "Routing.MC.cfg", workers=4, timeout=600, subst={"Deviations": devs}, count_mc=False)
         if d.outcome != "invariant":
             raise vlib.Infra("design check does not reject the model with %s enabled (%s)" % (devs, d.outcome))
+        ctx.extra["design_check_rejects_model_with_open_deviations"] = True
     # 2. GEN
     dims, skeletons = _skeletons(ctx)
     cases = _complete(ctx, dims, skeletons)
